@@ -50,20 +50,35 @@ def regenerate() -> dict:
                 loops.append(ast.literal_eval(n.iter.args[0]))
         if not early or not improve or not loops or len(set(loops)) != 1:
             raise Unavailable("unexpected structure of optimal_alignment")
-        cfg = (all(pos), all(early), all(improve), loops[0])
+        # the same loop in `test_exact_same`: its early exit must be `<`; how it breaks ties is followed
+        fx = find_function(parse(FILE), "test_exact_same", "MolecularSimilarity")
+        xe, xi = [], []
+        for n in ast.walk(fx):
+            if isinstance(n, ast.If):
+                e = _strict_less(n.test, "dist", "self.distance_criterion")
+                if e is not None and any(isinstance(x, ast.Return) for x in n.body):
+                    xe.append(e)
+                i = _strict_less(n.test, "dist", "best_dist")
+                if i is not None:
+                    xi.append(i)
+        if len(xe) != 1 or len(xi) != 1 or len(set(improve)) != 1:
+            raise Unavailable("unexpected structure of the candidate loops")
+        cfg = (all(pos), all(early) and xe[0], all(improve), loops[0], xi[0])
         status["Align.cfg"] = {"returnsPositionArray": cfg[0], "earlyExitStrictLess": cfg[1],
                                "improveStrictLess": cfg[2], "restarts": cfg[3],
+                               "exactImproveStrictLess": cfg[4],
                                "returns": len(returns), "early_exits": len(early)}
     except Unavailable as e:
-        cfg = (True, True, True, 150)
+        cfg = (True, True, True, 150, True)
         status["Align.cfg"] = f"unavailable ({e}); correspondence is the only tie"
     text = ("-- REGENERATED on every run by harness/translate/align.py from\n"
             "-- /repo/src/topsearch/similarity/molecular_similarity.py (do not edit)\n"
             "namespace TopSearch.Gen.Align\n"
             "structure Cfg where\n  returnsPositionArray : Bool\n  earlyExitStrictLess : Bool\n"
-            "  improveStrictLess : Bool\n  restarts : Nat\n  deriving Repr, DecidableEq\n"
+            "  improveStrictLess : Bool\n  restarts : Nat\n  exactImproveStrictLess : Bool\n  deriving Repr, DecidableEq\n"
             f"def cfg : Cfg := {{ returnsPositionArray := {lean_bool(cfg[0])}, earlyExitStrictLess := "
-            f"{lean_bool(cfg[1])}, improveStrictLess := {lean_bool(cfg[2])}, restarts := {cfg[3]} }}\n"
+            f"{lean_bool(cfg[1])}, improveStrictLess := {lean_bool(cfg[2])}, restarts := {cfg[3]}, "
+            f"exactImproveStrictLess := {lean_bool(cfg[4])} }}\n"
             "end TopSearch.Gen.Align\n")
     status["Gen/Align.lean rewritten"] = write_if_changed("Align.lean", text)
     return status
